@@ -684,12 +684,13 @@ HTPdelete(atom_t ddid /* IN: DD id to delete */
     if (HPfreediskblock(file_rec, dd_ptr->offset, dd_ptr->length) == FAIL)
         HGOTO_ERROR(DFE_INTERNAL, FAIL);
 
-    /* Update the disk, etc. */
-    if (HTIupdate_dd(file_rec, dd_ptr) == FAIL)
+    /* Remove the ref # as 'used' in the tag tree & delete from dynarray of refs
+       (this also sets the tag of the DD to DFTAG_NULL) */
+    if (HTIunregister_tag_ref(file_rec, dd_ptr) == FAIL)
         HGOTO_ERROR(DFE_INTERNAL, FAIL);
 
-    /* Remove the ref # as 'used' in the tag tree & delete from dynarray of refs */
-    if (HTIunregister_tag_ref(file_rec, dd_ptr) == FAIL)
+    /* Update the disk, etc. (after the tag has been nulled, so that the deletion is what gets written) */
+    if (HTIupdate_dd(file_rec, dd_ptr) == FAIL)
         HGOTO_ERROR(DFE_INTERNAL, FAIL);
 
     /* Destroy everything */
